@@ -40,12 +40,17 @@ from gens import limitfacts
 from props import c10
 
 ID = 'C09'
-LEAN_MODULES = ['Yaql.Props.C09', 'Yaql.Props.C09Ctx', 'Yaql.Props.C09Eval', 'Yaql.Props.C09Gen']
+LEAN_MODULES = ['Yaql.Props.C09', 'Yaql.Props.C09Ctx', 'Yaql.Props.C09Eval', 'Yaql.Props.C09Gen', 'Yaql.Props.EvalStore',
+                'Yaql.Props.C09Store']
 REQUIRED_THEOREMS = ['Yaql.Props.C09.' + n for n in (
     'convert_input_fresh', 'convert_output_fresh', 'convert_output_no_alias_with_conversion_off',
     'output_conversion_off_aliases', 'convInI_erase', 'convOutI_erase',
     'frame', 'discipline_fresh', 'context_frame', 'only_dollar', 'only_dollar_reads', 'dollar_bound',
-    'reeval', 'reeval_pool', 'context_clause_partial', 'eval_C09_full', 'eval_reeval_pool')] + ['Yaql.Props.C09Gen.no_param_mutation', 'Yaql.Props.C09Gen.table_nonvacuous']
+    'reeval', 'reeval_pool', 'context_clause_partial', 'eval_C09_full', 'eval_reeval_pool',
+    'stmtOfEvalS_local', 'stmtOfEvalS_disciplined', 'evalS_C09_full', 'evalS_context_frame', 'evalS_only_dollar',
+    'evalS_only_dollar_reads', 'evalS_reeval_pool')] + [
+        'Yaql.Props.C09Gen.no_param_mutation', 'Yaql.Props.C09Gen.table_nonvacuous'] + ['Yaql.Props.EvalStore.' + n for n in (
+            'log_disciplined', 'writes_fresh', 'store_prefix_unchanged', 'store_extends', 'statement_only_dollar')]
 TRUSTED = ['harness/gens/mutfacts.py: the AST scan that classifies in-place updates / attribute stores / global writes '
            'per payload parameter (labels, aliasing rules, copy constructors); cross-checked by the dynamic sweep',
            'the snapshot / identity walkers of harness/props/c09.py',
@@ -1444,6 +1449,13 @@ def run_yaqlized(world, res, hist):
 
 # ====================================================================================== run
 
+def run_evalstore(env, res, hist):
+    """the write log of generated programs of the C04 fragment on instrumented context classes against the
+    store-passing evaluator model (props/evalstore.py; Lean: Props/EvalStore.lean, Props/C09Store.lean)"""
+    from props import evalstore
+    evalstore.run(env, res, hist, ID)
+
+
 def replay_case(world, drv, res, case, hist):
     part = case.get('part')
     if part == 'sweep':
@@ -1455,6 +1467,10 @@ def replay_case(world, drv, res, case, hist):
             res.fail('oracle', key, '%s (expression %s, yaql.convertInputData=%s, data %s)' % (
                 what, case['text'], case['mode'], case['data']), case)
         res.case(('replay', case['text']))
+        return True
+    if part == 'evalstore':
+        from props import evalstore
+        evalstore.run(dict(driver=drv, tier=case.get('tier', 'quick'), seed=case.get('seed', 0), replay_case=case), res, hist, ID)
         return True
     if part in ('pool', 'ctx', 'conv', 'yaqlized', 'yaqleval') and 'seed' in case:
         rng = common.make_rng(case['seed'], ID + part)
@@ -1554,7 +1570,8 @@ def run(env, res):
                      ('ctx', lambda r: run_ctx(world, drv, res, r, tier, hist)),
                      ('conv', lambda r: run_conv(world, drv, res, r, tier, hist)),
                      ('yaqleval', lambda r: run_yaqleval(world, res, r, tier, hist)),
-                     ('yaqlized', lambda r: run_yaqlized(world, res, hist))):
+                     ('yaqlized', lambda r: run_yaqlized(world, res, hist)),
+                     ('evalstore', lambda r: run_evalstore(env, res, hist))):
         if res.failures:
             break
         t1 = time.time()
